@@ -359,6 +359,28 @@ func (w *World) runSchedule(cmds []ConcCmd, actions []SchedAction) schedRun {
 
 // parkCandidates lists the (syscall, k) pairs at which a command can be parked, from an
 // undisturbed traced run of the same command on a copy of the store.
+// lastLockAcquire returns the index (into the candidates of parkCandidatesEx) of the last
+// flock call that acquires a lock, or -1.
+func (w *World) parkCandidatesEx(op Op) (pts []Inject, lastAcquire int) {
+	c := w.At(CloneStore(w.Root, "probe"))
+	defer RemoveAll(c.Root)
+	c.writeFiles(op.Files)
+	out := StraceRun(c.Build(op), c.Root, nil)
+	count := map[string]int{}
+	lastAcquire = -1
+	for _, call := range out.Calls {
+		if call.Name == "close" {
+			continue
+		}
+		count[call.Name]++
+		pts = append(pts, Inject{Syscall: call.Name, When: count[call.Name], Kind: "stop"})
+		if call.Name == "flock" && !strings.Contains(call.Args, "LOCK_UN") {
+			lastAcquire = len(pts) - 1
+		}
+	}
+	return
+}
+
 func (w *World) parkCandidates(op Op) []Inject {
 	c := w.At(CloneStore(w.Root, "probe"))
 	defer RemoveAll(c.Root)
